@@ -11,7 +11,7 @@
 (***************************************************************************)
 EXTENDS XGen
 
-VARIABLES c, ph
+VARIABLES c, ph, which   \* which: "two" (FDoc, two-step paths) | "deep" (DeepDoc, string-values)
 
 Nd(k, p, sp, lo, v) == [k |-> k, p |-> p, sp |-> sp, lo |-> lo, v |-> v]
 E0(p, lo) == Nd("elem", p, <<>>, lo, <<>>)
@@ -43,12 +43,31 @@ Pool == SetToSeq(
      \cup {Abs(<<DoS, Step(a1, T_any), Step(a2, T_any)>>) : a1 \in ReverseAxes \cup {"parent"}, a2 \in {"attribute", "namespace", "child", "parent"}})
 ASSUME EmitPool("FX.two", Pool)
 
-Init == c \in 1..Len(FDoc) /\ ph = 0
-Next == ph = 0 /\ ph' = 1 /\ c' = c
+\* a document nested Depth levels deep: <e>1<e>2<e>3 ... <e>k</e> ... c</e>b</e>a</e>   (text before and after every nested element)
+Depth == 18
+Digit(i) == <<DigitChar(i % 10)>>
+DeepDoc == <<Nd("root", 0, <<>>, <<>>, <<>>)>>
+           \o [j \in 1..(2 * Depth) |-> IF j % 2 = 1 THEN Nd("elem", IF j = 1 THEN 1 ELSE j - 1, <<>>, <<"e">>, <<>>)   \* element i = (j+1)/2 has id j+1, its parent is element i-1 (id j-1)
+                                         ELSE Nd("text", j, <<>>, <<>>, Digit(j \div 2))]                                      \* its leading text has id j+1
+           \o [k \in 1..(Depth - 1) |-> Nd("text", 2 * (Depth - k), <<>>, <<>>, <<"a">>)]                                     \* trailing texts, innermost parent first
+ASSUME WellFormed(DeepDoc)
+S_string == <<"s","t","r","i","n","g">>
+DeepPool == << Call(S_string, <<>>), Call(<<"s","t","r","i","n","g","-","l","e","n","g","t","h">>, <<>>), Call(S_string, <<Abs(<<>>)>>),
+               Call(S_string, <<Rel(<<Step("parent", T_node)>>)>>), Call(<<"c","o","n","c","a","t">>, <<Rel(<<Self>>), Lit(<<"|">>), Rel(<<Step("child", T_any)>>)>>),
+               Bin("eq", Rel(<<Self>>), Rel(<<Step("ancestor", T_any)>>)), Call(<<"c","o","u","n","t">>, <<Rel(<<Step("descendant", T_text)>>)>>),
+               Call(S_string, <<Abs(<<Step("child", T_any), Step("child", T_any)>>)>>) >>
+ASSUME EmitPool("C04.deep", DeepPool)
+\* the string-value of an element is the concatenation of its descendant text nodes in document order: every text once
+DeepLaw == (ph = 1 /\ which = "deep" /\ DeepDoc[c].k = "elem") =>
+   Len(StringValue(DeepDoc, c)) = Cardinality({t \in Desc(DeepDoc, c) : DeepDoc[t].k = "text"})
+
+Init == ph = 0 /\ ((which = "two" /\ c \in 1..Len(FDoc)) \/ (which = "deep" /\ c \in 1..Len(DeepDoc)))
+Next == ph = 0 /\ ph' = 1 /\ c' = c /\ which' = which
 \* design level: the specification's own result for a two-step path is the union over the first step's nodes
-TwoStepIsUnion == ph = 1 =>
+TwoStepIsUnion == (ph = 1 /\ which = "two") =>
   \A a1 \in FirstAxes, a2 \in AxisNames :
      Eval(FDoc, Env, Rel(<<Step(a1, T_any), Step(a2, T_node)>>), Ctx(c)).v
        = UNION {Eval(FDoc, Env, Rel(<<Step(a2, T_node)>>), Ctx(m)).v : m \in Eval(FDoc, Env, Rel(<<Step(a1, T_any)>>), Ctx(c)).v}
-Emit == ph = 1 => EmitLine("FX.two", FDoc, Env, [i \in 1..Len(Pool) |-> CCase(FDoc, Env, c, Pool, i)])
+Emit == ph = 1 => IF which = "two" THEN EmitLine("FX.two", FDoc, Env, [i \in 1..Len(Pool) |-> CCase(FDoc, Env, c, Pool, i)])
+                  ELSE EmitLine("C04.deep", DeepDoc, Env, [i \in 1..Len(DeepPool) |-> CCase(DeepDoc, Env, c, DeepPool, i)])
 =============================================================================
